@@ -78,7 +78,8 @@ def collect_agent_data(
     }
 
     for agent in space.agents:
-        portray = agent_portrayal(agent)
+        # work on a copy: the portrayal function may hand out the same dict more than once
+        portray = dict(agent_portrayal(agent))
         loc = agent.pos
         if loc is None:
             loc = agent.cell.coordinate
